@@ -525,6 +525,7 @@ class LessParser(object):
 
     def p_variable_decl(self, p):
         """ variable_decl            : variable t_colon style_list t_semicolon
+                                     | variable t_colon style_list t_ws t_semicolon
         """
         if isinstance(p[1], list):
             # `-@a: 1px;`: a negated variable is a value, not a name
@@ -533,7 +534,7 @@ class LessParser(object):
                     utility.flatten(p[1])).strip(), p.lineno(2))
             p[0] = None
             return
-        p[0] = Variable(list(p)[1:-1], p.lineno(4))
+        p[0] = Variable(list(p)[1:4], p.lineno(4))
         p[0].parse(self.scope)
 
 #
@@ -547,6 +548,14 @@ class LessParser(object):
         """
         l = len(p)
         p[0] = Property(list(p)[1:-1], p.lineno(l - 1))
+
+    def p_property_decl_ws(self, p):
+        """ property_decl           : prop_open style_list t_ws t_semicolon
+                                    | prop_open style_list t_ws css_important t_semicolon
+        """
+        # the blank after an element name that ends the value
+        # (`place-items: center !important`, `margin: 0, h5 }`)
+        p[0] = Property([p[1], p[2]] + list(p)[4:-1], p.lineno(len(p) - 1))
 
     def p_property_decl_arguments(self, p):
         """ property_decl           : prop_open less_arguments t_semicolon
